@@ -48,8 +48,17 @@ def count_accepted(method, count):
 
 
 def interesting_counts(method):
-    """count classes for the grids: 0, minimum, default, interior, power of
-    ten, maximum, and the out-of-range neighbours."""
+    """count classes for the grids: 0, minimum, default, interior, power of ten, maximum, the out-of-range
+    neighbours, and (last three) values whose low 32 bits are a valid count - `unsigned long` is 64 bits wide here,
+    a cost kept in a 32-bit variable must not make them acceptable"""
+    base = _interesting_counts(method)
+    v = {"bcrypt": 12, "bcrypt_a": 12, "bcrypt_y": 12, "bcrypt_x": 12, "yescrypt": 5, "gost_yescrypt": 5, "scrypt": 7,
+         "sha256crypt": 5000, "sha512crypt": 5000, "bsdicrypt": 725, "sha1crypt": 262144, "sunmd5": 40000}.get(method, 1000)
+    lo = {"bcrypt": 4, "bcrypt_a": 4, "bcrypt_y": 4, "bcrypt_x": 4, "yescrypt": 1, "gost_yescrypt": 1, "scrypt": 6}.get(method, v)
+    return base + [2 ** 32 + v, 2 ** 33 + lo, 2 ** 64 - 2 ** 32 + v]
+
+
+def _interesting_counts(method):
     if method in ("md5crypt", "nt", "descrypt", "bigcrypt"):
         return [0, 1, 2, 1000]
     if method in ("bcrypt", "bcrypt_a", "bcrypt_y", "bcrypt_x"):
